@@ -25,11 +25,18 @@ U3 == {<<la, la, la, ex>>, <<lb, la, la, ex>>}
 Ooz == {<<la>>, <<<<102, 120>>>>}                       \* "a."  and  "fx."
 UNames == U1 \cup U2 \cup (IF Thorough THEN U3 \cup Ooz ELSE {<<<<102, 120>>>>})
 
-Menu == {{T_A}, {T_NS}, {T_NS, T_DS}, {T_A, T_TXT, T_CAA}}
+\* {NS, SOA, TXT}: the record collection also holds the apex of the delegated
+\* child zone (its SOA and other data sit at the delegation point): still a
+\* cut of the parent, only NS (and DS) are the parent's
+Menu == {{T_A}, {T_NS}, {T_NS, T_DS}, {T_A, T_TXT, T_CAA}, {T_NS, T_SOA, T_TXT}}
         \cup (IF Thorough THEN {{T_NS, T_A}} ELSE {})
 ApexSets == IF Thorough THEN {{T_SOA, T_NS, T_DNSKEY, T_A}} ELSE {{T_SOA, T_NS}}
 
 Recs(n, ts) == {[n |-> n, t |-> t] : t \in ts}
+\* limit shapes: 63-octet labels, owner names of wire length 253, 254, 255
+L63(k) == [i \in 1..63 |-> (IF k = 2 THEN 65 ELSE 97) + ((i + k) % 5)]
+LN(n) == [i \in 1..n |-> 48 + (i % 10)]
+Deep(n) == [i \in 1..n |-> <<97 + (i % 3)>>]            \* n one-octet labels
 \* hand-picked larger zones
 ExtraZones == {
   \* glue and occluded data after the last authoritative name, a name after the zone
@@ -45,9 +52,22 @@ ExtraZones == {
   \* (a.b.a.b.ex with data at b.ex: ENTs a.b.ex and b.a.b.ex), next to an
   \* ENT chain hanging off the apex
   Recs(<<lb, ex>>, {T_A}) \cup Recs(<<la, lb, la, lb, ex>>, {T_A}) \cup Recs(<<lb, lb, la, ex>>, {T_TXT}),
+  \* names at the length limit: 56/57/58 + 3 x 63 octets of labels below ex
+  \* (wire length 253, 254, 255), sharing a chain of three ENTs
+  Recs(<<LN(56), L63(1), L63(2), L63(3), ex>>, {T_A}) \cup Recs(<<LN(57), L63(1), L63(2), L63(3), ex>>, {T_TXT})
+    \cup Recs(<<LN(58), L63(1), L63(2), L63(3), ex>>, {T_A}) \cup Recs(<<lb, ex>>, {T_NS}),
+  \* the delegated child's apex data (SOA, TXT) and names below it in the
+  \* same collection as the parent
+  Recs(<<lb, ex>>, {T_NS, T_SOA, T_TXT}) \cup Recs(<<la, lb, ex>>, {T_A}) \cup Recs(<<Star, lb, ex>>, {T_TXT})
+    \cup Recs(<<la, la, lb, ex>>, {T_A}) \cup Recs(<<la, ex>>, {T_A}) \cup Recs(<<lc, ex>>, {T_NS, T_DS, T_SOA}),
   \* a delegation below a delegation, data at a cut, wildcard below an ENT
   Recs(<<la, ex>>, {T_NS, T_A}) \cup Recs(<<lb, la, ex>>, {T_NS, T_DS}) \cup Recs(<<la, lb, la, ex>>, {T_A})
     \cup Recs(<<Star, lb, lb, ex>>, {T_A}) \cup Recs(<<la>>, {T_A}) }
+\* the maximum number of labels: 124 one-octet labels, one two-octet label
+\* (wire length 255) / 125 one-octet labels (254) below ex -- 124 ENTs
+DeepZones == { Recs(<<<<120, 121>>>> \o Deep(124) \o <<ex>>, {T_A}) \cup Recs(Deep(3) \o <<ex>>, {T_TXT}) }
+IsDeep == \E r \in zone : Len(r.n) > 10          \* one hash order is enough there
+
 Configs == [assume : BOOLEAN, exclude : BOOLEAN]
 
 \* probe names: owners, ancestors, wildcards, some absent ones (lower case)
@@ -83,7 +103,8 @@ Init ==
         /\ \/ \E av \in ApexSets : \E S \in SUBSET UNames :
                  /\ Cardinality(S) <= MaxK
                  /\ \E f \in [S -> Menu] : ZoneOk(S, f) /\ zone = MkZone(av, S, f)
-           \/ \E z \in ExtraZones : zone = Recs(Apex, {T_SOA, T_NS}) \cup z
+           \/ \E z \in ExtraZones \cup (IF Thorough THEN DeepZones ELSE {}) :
+                 zone = Recs(Apex, {T_SOA, T_NS}) \cup z
      \/ kind = "bitmap" /\ zone = {}
   /\ recs = SortRecs(zone)
 
@@ -95,7 +116,7 @@ RunNsec ==
 
 RunNsec3 ==
   /\ kind = "zone" /\ step = "nsec"
-  /\ \E r \in 1..NRanks :
+  /\ \E r \in 1..(IF IsDeep THEN 1 ELSE NRanks) :
         /\ rk' = r
         /\ LET rf == RankOf(r)
            IN n3Out' = [c \in Configs |-> Nsec3Pass(recs, Apex, c.exclude, c.assume, rf)]
